@@ -5,6 +5,7 @@ import (
 	"strconv"
 	"time"
 
+	"github.com/frankkopp/FrankyGo/internal/movegen"
 	"github.com/frankkopp/FrankyGo/internal/position"
 )
 
@@ -60,3 +61,32 @@ func dbgMoves(args []string) int {
 	return 0
 }
 func init() { register("dbg-moves", dbgMoves) }
+
+// dbg-od <fen> <pv uci>: on-demand drain with a PV move set
+func dbgOd(args []string) int {
+	p, err := position.NewPositionFen(args[0])
+	if err != nil || p == nil {
+		fmt.Fprintln(realStdout, "rejected:", err)
+		return 1
+	}
+	w := NewWalker(NewRng(1))
+	mg := movegen.NewMoveGen()
+	for _, m := range *mg.GeneratePseudoLegalMoves(p, movegen.GenAll, false) {
+		if m.StringUci() == args[1] {
+			od := movegen.NewMoveGen()
+			od.SetPvMove(m)
+			var out []string
+			for {
+				x := od.GetNextMove(p, movegen.GenAll, false)
+				if x == 0 || len(out) > 100 {
+					break
+				}
+				out = append(out, x.StringUci())
+			}
+			fmt.Fprintln(realStdout, "pv", m.StringUci(), "drain:", out)
+		}
+	}
+	_ = w
+	return 0
+}
+func init() { register("dbg-od", dbgOd) }
